@@ -8,7 +8,7 @@ V = os.path.dirname(os.path.dirname(os.path.abspath(__file__)))
 
 def put(text, tag, body):
     return re.sub(r"<!-- %s-BEGIN -->.*?<!-- %s-END -->" % (tag, tag),
-                  "<!-- %s-BEGIN -->\n%s\n<!-- %s-END -->" % (tag, body, tag), text, flags=re.S)
+                  lambda _m: "<!-- %s-BEGIN -->\n%s\n<!-- %s-END -->" % (tag, body, tag), text, flags=re.S)
 
 
 def main():
